@@ -40,7 +40,7 @@ def counts(tier):
 
 def generate(rng, n, tier):
     nseeds = 8 if tier == "quick" else 64
-    nscripts = 40 if tier == "quick" else 400
+    nscripts = 120 if tier == "quick" else 480
     yield {"kind": "hashseed", "seeds": list(range(1, nseeds + 1)), "nscripts": nscripts, "gseed": rng.randrange(10 ** 9)}
     yield {"kind": "hashseed-set-arg"}
     for i in range(n):
@@ -188,6 +188,25 @@ def hashseed(case, res):
         "q = PostgreSQLQuery.update(T('t')).set('a', 1).returning('a', 'b', T('t').c)",
         "q = Query.from_(T('t')).join(T('u')).on((T('t').a == T('u').a) & (T('t').b == T('u').b)).select(T('t').a)",
     ]
+    # argument lists with repeated members (whatever a method does about repeats must not depend on hash order), DDL builders
+    names = ["alpha", "beta", "gamma", "delta", "eps"]
+    for _ in range(6):
+        ks = [rng.choice(names) for _ in range(rng.randint(3, 6))]
+        lit = ", ".join(repr(k) for k in ks)
+        fixed += [
+            "q = Query.create_table('nt').columns(%s).primary_key(%s)" % (", ".join("Column(%r, 'INT')" % n for n in names), lit),
+            "q = Query.create_table('nt').columns(%s).unique(%s).unique(%s)" % (", ".join("Column(%r, 'INT')" % n for n in names), lit, ", ".join(repr(k) for k in reversed(ks))),
+            "q = Query.create_table('nt').columns(%s).foreign_key([%s], T('other'), [%s])" % (", ".join("Column(%r, 'INT')" % n for n in names), lit, lit),
+            "q = Query.create_index('ix').on('t').columns(%s)" % lit,
+            "q = Query.from_(T('t')).select(%s).groupby(%s).orderby(%s)" % (lit, lit, lit),
+            "q = Query.into(T('t')).columns(%s).insert(%s)" % (lit, ", ".join(str(i) for i in range(len(ks)))),
+            "q = MySQLQuery.from_(T('t')).select('a').force_index(%s).use_index(%s)" % (lit, lit),
+            "q = PostgreSQLQuery.from_(T('t')).select('a').distinct_on(%s).for_update(of=(%s,))" % (lit, lit),
+            "q = PostgreSQLQuery.into(T('t')).columns('a').insert(1).on_conflict(%s).do_nothing()" % lit,
+            "q = Query.from_(T('t')).select('a').join(T('u')).using(%s)" % lit,
+            "q = ClickHouseQuery.from_(T('t')).select('a').limit_by(2, %s)" % lit,
+            "q = Query.from_(T('t')).select(fn.Coalesce(%s)).rollup(%s)" % (", ".join("T('t').%s" % k for k in ks), ", ".join("T('t').%s" % k for k in ks)),
+        ]
     for s in fixed:
         scripts.append((s, "q"))
     while len(scripts) < case["nscripts"]:
